@@ -11,7 +11,9 @@ AllIntVals == 1..27
 FewIntVals == {2, 7, 9, 10, 14, 15, 21, 23, 25, 27}
 AllArgKinds == OtherArgs
 Cats1 == CatSet
-NoFix == {}
+\* fixes present in the tree under test (the check looks for them in the source and tells TLC)
+NoFix == (IF "VERIF_FIX_INTERR" \in DOMAIN IOEnv THEN {"int-error-ignored"} ELSE {})
+         \cup (IF "VERIF_FIX_EXTRA" \in DOMAIN IOEnv THEN {"extra-args"} ELSE {})
 
 EvalInit == \E i \in 1..Len(Sel) : S = Sel[i].ov /\ kind = Sel[i].kind /\ done = TRUE
 EvalNext == UNCHANGED vars
@@ -25,7 +27,9 @@ CallRec(call, cx) ==
    ct |-> [i \in 1..N(call) |-> ArgType(S, call, i)],
    cpp |-> CppSelect(S, call),
    dev |-> DevC(S, call, cx),
-   m |-> PyResultsC(S, call, cx)]
+   m |-> PyResultsC(S, call, cx),
+   \* the mechanism model (a function of the input only) does not give the reference result
+   dis |-> e.k # "none" /\ \E r \in PyResultsC(S, call, cx) : ~Agree(r, e)]
 
 SetId == CHOOSE i \in 1..Len(Sel) : Sel[i].ov = S /\ Sel[i].kind = kind
 \* one short line per call (lines longer than the writer's buffer would interleave between workers)
